@@ -769,4 +769,139 @@ def rule_orphan(ctx) -> RuleResult:
     return res
 
 
-RULES = [rule_deleg, rule_closed, rule_fwd, rule_orphan]
+# --------------------------------------------------------------------------------------------------------------------------
+# C13.ONCE — "copying by extent yields exactly that selection ... with values outside the box blanked": the cells blanked in
+# the copy must be decided by the evaluation of the predicate that selected them in the SOURCE.  A second evaluation on the
+# copy (whose coordinates are recomputed from a shifted origin) is a different floating-point computation: it may disagree
+# on cells lying on a face of the box, so a selected cell comes back blanked.
+def _blank_stores(fn_node):
+    """(statement, mask expression) for `V[<mask>] = <no-data>` and `V = np.where(<mask>, .., <no-data>)`."""
+    def nodata(e):
+        return any((isinstance(x, ast.Attribute) and x.attr in ("nan_value", "nan", "ndv", "NaN")) for x in ast.walk(e))
+
+    for st in ast.walk(fn_node):
+        if isinstance(st, ast.Assign):
+            for t in st.targets:
+                if isinstance(t, ast.Subscript) and nodata(st.value) and not isinstance(t.slice, (ast.Constant, ast.Slice)):
+                    yield st, t.slice
+            v = st.value
+            if isinstance(v, ast.Call) and call_name(v) == "where" and len(v.args) == 3 and (nodata(v.args[1]) or nodata(v.args[2])):
+                yield st, v.args[0]
+
+
+def rule_once(ctx) -> RuleResult:
+    res = RuleResult(
+        "C13.ONCE",
+        "C13",
+        "in every copy_from_extent override that blanks values of the copy, the blanking mask is computed (flow-sensitively) "
+        "from evaluations of the predicate on the source object only: no selection evaluated on the copy or its children decides "
+        "which copied values are blanked",
+        floor=1,
+    )
+    from ..cfg import CFG, forward
+
+    p = ctx.p
+    pred = _predicate(p)
+    for cls in p.classes:
+        fn0 = cls.methods.get("copy_from_extent")
+        if fn0 is None:
+            continue
+        fn = _view(ctx, fn0)
+        blanks = list(_blank_stores(fn.node))
+        if not blanks:
+            continue
+        self_name = fn.self_name
+        sources = {}  # id(call) -> (call, on_source: bool, text)
+
+        def selection(c):
+            """None, or True / False: `c` evaluates the predicate on the source object / on something else."""
+            if not isinstance(c, ast.Call):
+                return None
+            if _is_call_to(p, fn.module, c, pred):
+                loc = _argument(c, "locations", 0)
+                return loc is not None and _self_rooted(loc, self_name)
+            f = c.func
+            if isinstance(f, ast.Attribute) and f.attr == "mask_by_extent":
+                if isinstance(f.value, ast.Call) and call_name(f.value) == "super":
+                    return True
+                if isinstance(f.value, ast.Name) and f.value.id == self_name:
+                    return True
+                if isinstance(f.value, ast.Name) and c.args and isinstance(c.args[0], ast.Name) and c.args[0].id == self_name:
+                    r = p.resolve_name(fn.module, f.value.id)
+                    if r and r[0] == "class":
+                        return True
+                return False
+            return None
+
+        def taint_of(e, state):
+            out = set()
+            for x in ast.walk(e):
+                if isinstance(x, ast.Name) and x.id in state:
+                    out |= state[x.id]
+                s = selection(x)
+                if s is not None:
+                    sources[id(x)] = (x, s)
+                    out.add(id(x))
+            return frozenset(out)
+
+        def assign(state, target, t, strong=True):
+            state = dict(state)
+            base = target
+            weak = not strong
+            while isinstance(base, (ast.Subscript, ast.Starred, ast.Attribute)):
+                weak = weak or isinstance(base, (ast.Subscript, ast.Attribute))
+                base = base.value
+            names = [base] if isinstance(base, ast.Name) else [x for x in ast.walk(base) if isinstance(x, ast.Name)]
+            for nm in names:
+                state[nm.id] = (state.get(nm.id, frozenset()) | t) if weak else t
+            return state
+
+        def transfer(n, box):
+            st = box[0]  # boxed: forward() reads a bare dict as a per-edge table
+            a = n.stmt if n.kind == "stmt" else None
+            if n.kind == "stmt" and isinstance(a, ast.Assign):
+                t = taint_of(a.value, st)
+                for tg in a.targets:
+                    st = assign(st, tg, t)
+            elif n.kind == "stmt" and isinstance(a, ast.AnnAssign) and a.value is not None:
+                st = assign(st, a.target, taint_of(a.value, st))
+            elif n.kind == "stmt" and isinstance(a, ast.AugAssign):
+                st = assign(st, a.target, taint_of(a.value, st), strong=False)
+            elif n.kind == "fornext":
+                st = assign(st, n.ast, taint_of(n.stmt.iter, st))
+            elif n.kind == "with":
+                for it in n.ast.items:
+                    if it.optional_vars is not None:
+                        st = assign(st, it.optional_vars, taint_of(it.context_expr, st))
+            return (st,)
+
+        def join(a, b):
+            if a == b:
+                return a
+            a, b = a[0], b[0]
+            return ({k: a.get(k, frozenset()) | b.get(k, frozenset()) for k in set(a) | set(b)},)
+
+        g = CFG(fn.node)
+        IN = forward(g, ({},), transfer, join)
+        at = {id(n.stmt): n for n in g.nodes if n.kind == "stmt"}
+        for st, mask in blanks:
+            node = at.get(id(st))
+            if node is None or node not in IN:
+                continue  # unreachable / nested definition
+            t = taint_of(mask, IN[node][0])
+            evals = [sources[i] for i in t]
+            foreign = [c for c, on_src in evals if not on_src]
+            ok = bool(evals) and not foreign
+            res.inst(f"{cls.name}.copy_from_extent:{st.lineno} values blanked where ~({unparse(mask)[:40]}): decided by "
+                     f"{sorted(unparse(c.func)[:40] for c, _ in evals) or 'no evaluation of the predicate'}", nontrivial=True, ok=ok)
+            if foreign:
+                res.find(cls.name, "copy_from_extent", "copied values blanked by a selection evaluated on the copy", f"{fn.module.relpath}:{st.lineno}",
+                         f"the mask comes from {unparse(foreign[0])[:60]}, a second evaluation of the predicate on recomputed coordinates: "
+                         "cells the source selection kept (on a face of the box) can be blanked in the copy")
+            elif not evals:
+                res.find(cls.name, "copy_from_extent", "copied values blanked by a mask that is not a selection of the source", f"{fn.module.relpath}:{st.lineno}",
+                         "the blanked cells are not the ones the predicate rejected on the source object")
+    return res
+
+
+RULES = [rule_deleg, rule_closed, rule_fwd, rule_orphan, rule_once]
